@@ -33,9 +33,23 @@ var (
 func runSweep(r *vrun.Run) {
 	offs := offsets(r)
 	reps := r.Pick(1, 40)
-	var cases []scen
-	idx := 0
+	// cases are kept as compact descriptors (millions in the thorough tier) and expanded by the workers
+	type cdesc struct {
+		runner, kind, parent uint8
+		offUs, rep           int32
+	}
+	names := []string{rRAWT, rCtx, rStore, kCoopNil, kCoopErr, kCoopLag, kBlind, kWaitOnly, pLive, pPre, pTm, pT, pTp}
+	code := map[string]uint8{}
+	for i, n := range names {
+		code[n] = uint8(i)
+	}
+	var cases []cdesc
 	add := func(runner, kind, parent string, off int64, rep int) {
+		cases = append(cases, cdesc{code[runner], code[kind], code[parent], int32(off / 1000), int32(rep)})
+	}
+	expand := func(idx int) scen {
+		c := cases[idx]
+		runner, kind, parent, off, rep := names[c.runner], names[c.kind], names[c.parent], int64(c.offUs)*1000, int(c.rep)
 		rng := r.Rand("sweep|"+runner+"|"+kind+"|"+parent+fmt.Sprint("|", rep), int(off/1000)+4000)
 		sc := scen{Part: "bubble", Runner: runner, Kind: kind, Parent: parent, OffNs: off, Index: idx}
 		sc.TNs = sweepT[rng.IntN(len(sweepT))]
@@ -48,14 +62,13 @@ func runSweep(r *vrun.Run) {
 		if parent == pLive || parent == pPre {
 			sc.EpsNs = 0
 		}
-		// which structural hang witness is taken if the runner does not return (see runBubbleCase)
+		// which structural hang witness is taken if the runner does not return (see bubbleBody)
 		us := off / 1000
 		sc.Confirm = us%16 == 0 || (us >= -2 && us <= 2)
 		if rep >= 1000 {
 			sc.Confirm = rep%16 == 0
 		}
-		idx++
-		cases = append(cases, sc)
+		return sc
 	}
 	kinds := []string{kCoopNil, kCoopErr, kCoopLag, kBlind}
 	parents := []string{pLive, pTm, pT, pTp}
@@ -97,7 +110,7 @@ func runSweep(r *vrun.Run) {
 			}
 		}
 	}
-	vrun.Parallel(len(cases), 0, func(i int) { runBubbleCase(r, cases[i]) })
+	vrun.Parallel(len(cases), 0, func(i int) { runBubbleCase(r, expand(i)) })
 }
 
 // bubbleOut is filled by the goroutines of the bubble.
